@@ -35,7 +35,8 @@ Inductive ev :=
 | Write (n : name) (d : bytes)
 | Fsync (n : name)
 | Close (n : name)
-| FsyncDir (p : name).            (* open(dir, O_RDONLY); fsync; close *)
+| FsyncDir (p : name)             (* open(dir, O_RDONLY); fsync; close *)
+| Unlink (n : name).              (* never produced by the modelled code; accepted in RECORDED traces *)
 
 (* ---- 2. persistence ---- *)
 Record fstate := mkF { f_vol : bytes ; f_synced : option bytes ; f_dirty : bool ; f_entry : bool }.
@@ -51,6 +52,12 @@ Fixpoint aset {V} (l : list (name * V)) (n : name) (v : V) : list (name * V) :=
   match l with
   | [] => [(n, v)]
   | (m, w) :: r => if name_eqb m n then (m, v) :: r else (m, w) :: aset r n v
+  end.
+
+Fixpoint aremove {V} (l : list (name * V)) (n : name) : list (name * V) :=
+  match l with
+  | [] => []
+  | (m, v) :: r => if name_eqb m n then aremove r n else (m, v) :: aremove r n
   end.
 
 Definition parent (n : name) : name := removelast n.
@@ -143,6 +150,11 @@ Section Persist.
         | None => st
         end
     | FsyncDir p => sync_children st p
+    | Unlink n =>
+        (* the name no longer maps to its (durable) file: a file created under it afterwards is a new file whose name
+           is not durable until its directory is synced.  (Approximation: the candidate "old file still there" is
+           represented by the candidate "name lost" of the new file; both differ from a newly set value.) *)
+        mkP (aremove (p_files st) n) (p_dirs st)
     end.
 
   Fixpoint run (st : pstate) (evs : list ev) : pstate :=
